@@ -363,7 +363,7 @@ class Proxy:
                 self.proc.wait()
         if self.logf:
             self.logf.close()
-        if not keep:
+        if not keep and not os.environ.get('VERIF_KEEP'):
             shutil.rmtree(self.dir, ignore_errors=True)
 
     def api(self, method, path, body=None, port=None, timeout=5.0, prefix='/api'):
